@@ -13,7 +13,7 @@ from .engine import Exec, Ctx, State, Contract, mk_heap, conjuncts
 from .extract import Sources
 from .specfns import SPEC
 
-TIMEOUT_MS = int(os.environ.get("PYVC_TIMEOUT_MS", "12000"))
+TIMEOUT_MS = int(os.environ.get("PYVC_TIMEOUT_MS", "20000"))
 MAX_EXTERNAL = 4
 MAX_SECOND = 300   # thorough tier: obligations per function (case) that are re-checked by cvc5 / z3 4.8 (evenly spaced sample when there are more)
 MAX_FULL = 8       # obligations per function (case) that get the full third pass (retry at 4x budget, model search, second solvers)
